@@ -8,9 +8,11 @@ import (
 	"context"
 	"fmt"
 	"io"
+	"math"
 	"math/big"
 	"net/http"
 	"net/http/httptest"
+	"net/http/httptrace"
 	"reflect"
 	"strconv"
 	"strings"
@@ -34,6 +36,13 @@ type c05HTTPCase struct {
 	Big int `json:"big,omitempty"`
 	// M: HTTP method ("" = POST). A body-less GET is only drawn when no field lives in the json part.
 	M string `json:"m,omitempty"`
+	// X: a request httpc cannot build or must refuse (GET with a json part, an empty path value, a
+	// path variable the struct lacks / the URL lacks, a value outside the field's own options=/range=,
+	// an empty non-optional collection). What httpc does then is not fixed by the statement: run for
+	// panics only (a refusal is fine, anything else is not judged).
+	X string `json:"x,omitempty"`
+	// CT: the context given to httpc.Do carries an httptrace.ClientTrace (must not change anything)
+	CT bool `json:"ct,omitempty"`
 }
 
 const c05MaxBody = 8 << 20 // httpx reads at most this many bytes of a JSON body
@@ -347,6 +356,10 @@ func c05GenHTTPCase(rt *rapid.T) c05HTTPCase {
 		ms = append(ms, "GET", "GET", "HEAD", "OPTIONS")
 	}
 	c.M = c05Pick(rt, "method", ms)
+	c.CT = rapid.IntRange(0, 7).Draw(rt, "clienttrace") == 0
+	if rapid.IntRange(0, 11).Draw(rt, "refusable") == 0 {
+		c.X = c05Pick(rt, "refusekind", []string{"getbody", "emptypath", "missingvar", "unusedvar", "badvalue", "emptycoll", "nilptr", "nan", "badurl", "badmethod"})
+	}
 	return c
 }
 
@@ -415,6 +428,37 @@ func c05InterpHTTP(c c05HTTPCase) (v kit.Verdict) {
 		return kit.Verdict{Excluded: true, Classes: []string{"no-representable-value"}}
 	}
 	pattern := "/r"
+	applied := false
+	for i := range c.S {
+		f, fv := &c.S[i], sent.Elem().Field(i)
+		switch {
+		case applied:
+		case c.X == "emptypath" && f.Tag == "path" && fv.Kind() == reflect.String:
+			fv.SetString("")
+			applied = true
+		case c.X == "badvalue" && len(f.Opts) > 0 && fv.Kind() == reflect.String:
+			fv.SetString(fv.String() + "-not-an-option")
+			applied = true
+		case c.X == "badvalue" && f.Rng != nil && f.Rng.R != "" && (fv.Kind() == reflect.Int || fv.Kind() == reflect.Int64 || fv.Kind() == reflect.Float64):
+			if r, err := strconv.ParseFloat(f.Rng.R, 64); err == nil {
+				if fv.Kind() == reflect.Float64 {
+					fv.SetFloat(r + 1000)
+				} else {
+					fv.SetInt(int64(r) + 1000)
+				}
+				applied = true
+			}
+		case c.X == "emptycoll" && f.Tag == "json" && !f.Opt && (fv.Kind() == reflect.Slice || fv.Kind() == reflect.Map):
+			fv.Set(reflect.Zero(fv.Type()))
+			applied = true
+		case c.X == "nilptr" && f.Tag == "json" && !f.Opt && fv.Kind() == reflect.Ptr:
+			fv.Set(reflect.Zero(fv.Type()))
+			applied = true
+		case c.X == "nan" && f.Tag == "json" && (fv.Kind() == reflect.Float64 || fv.Kind() == reflect.Float32) && f.Rng == nil && len(f.Opts) == 0 && !f.Str:
+			fv.SetFloat(math.NaN()) // encoding/json cannot encode it
+			applied = true
+		}
+	}
 	for i := range c.S {
 		classes["part:"+c.S[i].Tag] = true
 		if len(c.S[i].Tag2) > 0 {
@@ -438,6 +482,33 @@ func c05InterpHTTP(c c05HTTPCase) (v kit.Verdict) {
 	if method == "" {
 		method = http.MethodPost
 	}
+	urlPattern := pattern
+	switch c.X {
+	case "getbody":
+		if classes["part:json"] {
+			method, applied = http.MethodGet, true
+		}
+	case "missingvar":
+		pattern, urlPattern, applied = pattern+"/:zz9", pattern+"/:zz9", true
+	case "unusedvar":
+		if i := strings.LastIndex(pattern, "/:"); i > 0 {
+			pattern, urlPattern, applied = pattern[:i], pattern[:i], true
+		}
+	case "badurl":
+		urlPattern, applied = pattern+"/%zz", true
+	}
+	httpcMethod := method
+	if c.X == "badmethod" {
+		httpcMethod, applied = "BAD METHOD", true
+	}
+	if c.CT {
+		classes["ctx:client-trace"] = true
+		// (F20, repaired by 638bb9d: httpc.request re-installed the context's own ClientTrace, the first
+		// hook that fired recursed until "fatal error: stack overflow"; such a crash is reported by the driver)
+	}
+	if c.X != "" && !applied {
+		return kit.Verdict{Excluded: true, Classes: []string{"refusable:not-applicable"}}
+	}
 	classes["method:"+method] = true
 	rtr := router.NewRouter()
 	if err := rtr.Handle(method, pattern, http.HandlerFunc(func(w http.ResponseWriter, r *http.Request) {
@@ -460,10 +531,23 @@ func c05InterpHTTP(c c05HTTPCase) (v kit.Verdict) {
 	descText := fmt.Sprintf("type %v sent %s route %s", target.Type().Elem(), c05Sprint(sent.Elem()), pattern)
 	desc := func() string { return descText }
 	var resp *http.Response
+	var (
+		hookMu                       sync.Mutex
+		gotConn, firstByte, wroteReq int
+	)
 	send := func() c05Outcome {
 		out := c05Call(func() error {
 			var err error
-			resp, err = httpc.Do(context.Background(), method, srv.URL+pattern, sent.Interface())
+			ctx := context.Background()
+			if c.CT {
+				gotConn, firstByte, wroteReq = 0, 0, 0
+				ctx = httptrace.WithClientTrace(ctx, &httptrace.ClientTrace{
+					GotConn:              func(httptrace.GotConnInfo) { hookMu.Lock(); gotConn++; hookMu.Unlock() },
+					WroteRequest:         func(httptrace.WroteRequestInfo) { hookMu.Lock(); wroteReq++; hookMu.Unlock() },
+					GotFirstResponseByte: func() { hookMu.Lock(); firstByte++; hookMu.Unlock() },
+				})
+			}
+			resp, err = httpc.Do(ctx, httpcMethod, srv.URL+urlPattern, sent.Interface())
 			return err
 		})
 		if resp != nil {
@@ -473,6 +557,17 @@ func c05InterpHTTP(c c05HTTPCase) (v kit.Verdict) {
 		return out
 	}
 	out := send()
+	if c.X != "" {
+		switch {
+		case out.Panic != nil:
+			return kit.Verdict{Fail: fmt.Sprintf("P0 httpc.Do panicked on a request it cannot build (%s): %v | %s", c.X, out.Panic, desc()), Classes: []string{"refusable:" + c.X, "outcome:panic"}}
+		case parsePan != nil:
+			return kit.Verdict{Fail: fmt.Sprintf("P0 httpx.Parse panicked (%s): %v | %s", c.X, parsePan, desc()), Known: c05PanicKnown(o, fmt.Sprint(parsePan)), Classes: []string{"refusable:" + c.X, "outcome:panic"}}
+		case out.Err != nil:
+			return kit.Verdict{NonTrivial: true, Classes: []string{"refusable:" + c.X, "refusable:refused-by-httpc"}}
+		}
+		return kit.Verdict{Excluded: true, Classes: []string{"refusable:" + c.X, "refusable:sent-anyway"}}
+	}
 	if c.Big > 0 && out.Panic == nil && out.Err == nil && called == 1 && parsePan == nil && parseErr == nil {
 		// large-document class: second request with the pad field sized so that the body is exactly c.Big bytes
 		padField := sent.Elem().Field(len(c.S) - 1)
@@ -508,8 +603,15 @@ func c05InterpHTTP(c c05HTTPCase) (v kit.Verdict) {
 				c.Big, called, bodyLen, c05Sprint(target.Elem()), desc())
 		}
 	}
+	hookMu.Lock()
+	gc, fb, wr := gotConn, firstByte, wroteReq
+	hookMu.Unlock()
 	switch {
 	case v.Fail != "":
+	case c.CT && c.Big == 0 && out.Panic == nil && out.Err == nil && (fb != 1 || gc < 1 || wr < 1 || wr > gc):
+		// the caller's trace hooks: one response, so the first response byte arrives exactly once; every
+		// written request was written on a connection that was handed out (a transparent retry repeats both)
+		v.Fail = fmt.Sprintf("P5 the context's httptrace hooks fired GotConn x%d, WroteRequest x%d, GotFirstResponseByte x%d for one successful httpc.Do | %s", gc, wr, fb, desc())
 	case out.Panic != nil:
 		v.Fail = fmt.Sprintf("P0 httpc.Do panicked: %v | %s", out.Panic, desc())
 	case out.Err != nil:
